@@ -7,20 +7,6 @@ namespace A2l.Tree
 open A2l.G A2l.Sc
 
 mutual
-/-- the same element up to the order of sub-elements (at every depth) and layout -/
-inductive OT.Sib : OT → OT → Prop
-  | cmt (t : List Char) (o o' : Nat) : OT.Sib (.cmt t o) (.cmt t o')
-  | node (i i' : Nat) (tag : List Char) (blk : Bool) (ty so so' eo eo' : Nat) (fields : List Val) (items items' : List OT) :
-      OT.SibL items items' → OT.Sib (.node i tag blk ty so eo fields items) (.node i' tag blk ty so' eo' fields items')
-/-- a permutation of siblings, recursively -/
-inductive OT.SibL : List OT → List OT → Prop
-  | nil : OT.SibL [] []
-  | cons (x y : OT) (xs ys : List OT) : OT.Sib x y → OT.SibL xs ys → OT.SibL (x :: xs) (y :: ys)
-  | swap (x y : OT) (l : List OT) : OT.SibL (y :: x :: l) (x :: y :: l)
-  | trans (a b c : List OT) : OT.SibL a b → OT.SibL b c → OT.SibL a c
-end
-
-mutual
 theorem OT.Sib.keys : ∀ {x y : OT}, OT.Sib x y → ∀ ind, ((x.toks ind).map wkey).Perm ((y.toks ind).map wkey)
   | _, _, .cmt t o o', ind => by simp [OT.toks, wkey]
   | _, _, .node i i' tag blk ty so so' eo eo' fields items items' h, ind => by
@@ -65,12 +51,6 @@ theorem values_perm_of_sib (lx : LexEnv) {items items' : List OT} (h : OT.SibL i
   rw [valuesOf_written, valuesOf_written]
   exact (h.keys 0).map _
 
-theorem OT.SibL.refl : ∀ (xs : List OT), OT.SibL xs xs
-  | [] => .nil
-  | .cmt t o :: xs => .cons _ _ _ _ (.cmt t o o) (OT.SibL.refl xs)
-  | .node i tag blk ty so eo fields items :: xs =>
-    .cons _ _ _ _ (.node i i tag blk ty so so eo eo fields items items (OT.SibL.refl items)) (OT.SibL.refl xs)
-
 section
 variable {e : Env} {lx : LexEnv} (hin : InOk e lx)
 include hin
@@ -86,6 +66,24 @@ theorem content_preserved_perm_lemma (htab : tableOk e.table e.known = true) (hs
         Pres (valuesOf e.toks) perm := by
   obtain ⟨items, h1, -, h3⟩ := content_preserved_lemma hin htab hshape htags hns hroot h
   exact ⟨items, h1, fun items' hs => ⟨_, values_perm_of_sib lx hs, h3⟩⟩
+
+/-- **the writer's order is a reordering of the position-restricted siblings of the input order**, and theorem 2 in its
+    permutation form:
+    `items` = the sub-elements in input order, `items'` = in the order in which `stringify` writes them -/
+theorem content_preserved_perm_full (htab : tableOk e.table e.known = true) (hshape : shapeOk e.table = true)
+    (htags : TagsOk e) (hns : NoSpecialOk e) {rarms : List Arm} (hroot : RootOk e rarms) {fuel : Nat} {v : Val} {s : PState}
+    (h : parseFile fuel e {} = .ok v s) :
+    ∃ items items', InOrder e v items ∧ OT.SibPL e.code items items' ∧ Canon e v items' ∧
+      (valuesOf (mkToks lx (OT.toksL 0 (OT.fixL false items))).toArray).Perm
+        (valuesOf (mkToks lx (OT.toksL 0 (OT.fixL false items'))).toArray) ∧
+      Pres (valuesOf e.toks) (valuesOf (mkToks lx (OT.toksL 0 (OT.fixL false items))).toArray) := by
+  obtain ⟨items, ver, fp⟩ := parseFile_post hin #[] htab hshape htags hns hroot h rfl
+  obtain ⟨items', hs, hc⟩ := fp.sibc
+  refine ⟨items, items', fp.ord, hs, hc, values_perm_of_sib lx hs.toSibL, ?_⟩
+  have := (fp.sim.fixL false).pres (fun t ht hty r hr => by
+    obtain ⟨i, hi⟩ := List.getElem?_of_mem ht
+    exact hin.fl i t r (by simpa using hi) hty hr) 1
+  simpa [valuesOf, mkToks] using this
 
 end
 end A2l.Tree
